@@ -181,6 +181,26 @@ func schedulerLab(c *Ctx) int {
 			}
 		}
 		fmt.Printf("scheduler lab timers    : context deadline, stoppable timer and ticker do not end the computation\n")
+		// unsynchronised map sharing is reported as the runtime's fatal error under every
+		// schedule; sharing that is ordered by a lock, a channel, a WaitGroup, a semaphore or a
+		// Once is never reported
+		for _, sch := range []string{"canon", "rev", "seeded", "seeded", "seeded"} {
+			for k, mode := range []string{"maprace-writers", "maprace-abandoned", "mapsafe"} {
+				a := w.Exec(&Job{Node: "simlab", Argv: []string{mode}, Seed: uint64(31 + 7*k), Sched: sch, Budget: 40_000_000, NsTick: nsPerTick})
+				racy := a.Status == "panic" && strings.Contains(a.Panic, "concurrent map")
+				if mode == "mapsafe" && (racy || a.Status != "exit" || !bytes.Contains(a.Stdout, []byte("mapsafe 4 2 10 30 true"))) {
+					bad++
+					fmt.Printf("simlab mapsafe (%s): correctly synchronised sharing must pass, got status=%s panic=%q out=%q\n", sch, a.Status, a.Panic, a.Stdout)
+				}
+				// (the canonical schedule never preempts and the reversed one always prefers the
+				// youngest goroutine: neither has to see the overlap; every seeded one must)
+				if mode != "mapsafe" && !racy && sch == "seeded" {
+					bad++
+					fmt.Printf("simlab %s (%s): unsynchronised map sharing not reported: status=%s panic=%q out=%q\n", mode, sch, a.Status, a.Panic, a.Stdout)
+				}
+			}
+		}
+		fmt.Printf("scheduler lab map races : unsynchronised sharing reported, synchronised sharing not\n")
 	}
 	for _, m := range modes {
 		fmt.Printf("scheduler lab %-10s: %d distinct interleavings over %d schedules\n", m, len(distinct[m]), nseeds+2)
